@@ -95,17 +95,20 @@ def _per_count(f):
     return g
 
 
-def run(chk):
-    prog = chk.prog
+def placement_view(prog):
+    """add_implicit_hydrogens as the placement rules read it"""
+    from ..canon import ifchain, sink_tail
+
     f = prog.func(f"{ST}:Structure.add_implicit_hydrogens")
-    chk.analysed(f)
-    from ..canon import ifchain
-
-    from ..canon import sink_tail
-
     f = ifchain(f, {"hs_to_add"})  # these rules read the placement dispatch as an if / elif chain
     f = sink_tail(f, lambda t: norm(t).startswith("hs_to_add =="))  # a shared attach loop after the chain belongs to every branch
-    f = _per_count(f)  # `case 3 | 4:` with an inner `if hs_to_add == 3` is two placements: one chain arm per count
+    return _per_count(f)  # `case 3 | 4:` with an inner `if hs_to_add == 3` is two placements: one chain arm per count
+
+
+def run(chk):
+    prog = chk.prog
+    chk.analysed(prog.func(f"{ST}:Structure.add_implicit_hydrogens"))
+    f = placement_view(prog)
     chk.call(r1_only_hydrogens, chk, f)
     branches = chk.call(r2_pairing, chk, f)
     if branches is not chk.REFUSED:
